@@ -868,6 +868,10 @@ func (t *Topic) handleLeaveRequest(msg *ClientComMessage, sess *Session) {
 				sess.queueOut(NoErrReply(msg, now))
 			}
 		}
+	} else if msg.init {
+		// The session is no longer attached: it was evicted or unsubscribed while this request was
+		// in flight (the session learns about it asynchronously). Don't leave the request unanswered.
+		sess.queueOut(InfoNotJoined(msg.Id, msg.Original, now))
 	}
 }
 
